@@ -134,7 +134,81 @@ def diff_track(exp, got):
     return out
 
 
+def make_shared_case(cid, rng, schema, n_tracks, n_ops):
+    """One on-disk library opened twice in the same process (two database objects on one directory): setters go through
+    either of them, and after every step both must give the same answers."""
+    d = "@W/" + cid
+    ops = [{"op": "create", "schema": schema, "dir": d}]
+    for t in range(n_tracks):
+        sn = GS.gen_snapshot(rng, schema, rich=True, hostile_sentinels=False)
+        sn.setdefault("sample_rate", GS.dbits(44100.0))
+        sn.setdefault("sample_count", rng.randrange(10 ** 5, 10 ** 8))
+        ops.append({"op": "create_track", "as": "t%d" % t, "snap": sn, "bind": "id%d" % t})
+    ops.append({"op": "load", "dir": d, "lib": 1})
+    for t in range(n_tracks):
+        ops.append({"op": "track_by_id", "id": "$id%d" % t, "as": "t%d" % t, "lib": 1})
+    ops += [dict(OBS), dict(OBS_B)]
+    u = GH.Uniq()
+    steps = []
+    for k in range(n_ops):
+        th = "t%d" % rng.randrange(n_tracks)
+        field = rng.choice([f for f in GH.SETTER_FIELDS if f != "waveform"] + ["relative_path", "relative_path", "title"])
+        val, _exc = GH.setter_value(rng, schema, field, u)
+        op = {"op": "set", "t": th, "field": field, "value": val}
+        if rng.random() < 0.5:
+            op["lib"] = 1
+        steps.append(len(ops))
+        ops += [op, dict(OBS), dict(OBS_B)]
+    return {"id": cid, "schema": schema, "ops": ops, "_shared": steps, "_metas": [], "_index": []}
+
+
+def judge_shared(ctx, res):
+    case = res.case
+    schema = case["schema"]
+    fam = family(schema)
+    ops = case["ops"]
+    ctx.bump_in("cases_by_schema", schema)
+    ctx.bump("shared_directory_cases")
+    wit = {"schema": schema, "ops": [o for o in ops if not o["op"].startswith("observe_all")]}
+    if res.crash:
+        c = res.crash
+        ctx.violation(f"op-did-not-complete {fam} {c.get('op')} shared-directory {c['kind']} at={c['site']}",
+                      f"{schema}: {c.get('op')} did not complete with the library opened twice: {c['kind']}", dict(wit, crash=c["kind"]))
+        return
+    evs = res.events
+    first = case["_shared"][0] if case["_shared"] else len(ops)
+    if any("exc" in e for e in evs[:first]):
+        ctx.fail_harness("shared-directory set-up failed: %s" % [e["exc"]["type"] for e in evs[:first] if "exc" in e][:1])
+        return
+    from .c10 import diff_paths, generic_site
+    for k in case["_shared"]:
+        if k + 2 >= len(evs):
+            break
+        op, a, b = ops[k], evs[k + 1], evs[k + 2]
+        ctx.count()
+        if "exc" in a or "exc" in b:
+            ctx.fail_harness("observation failed in a shared-directory case")
+            return
+        ctx.bump_in("shared_directory_setters_through", "second database object" if op.get("lib") else "first database object")
+        ta, tb = a["ret"].get("tracks"), b["ret"].get("tracks")
+        stale = a["ret"].get("held_handles_disagree") or b["ret"].get("held_handles_disagree")
+        ctx.bump("held_handle_comparisons", a["ret"].get("held_handles_compared", 0) + b["ret"].get("held_handles_compared", 0))
+        if stale:
+            ctx.violation(f"held-handle-stale {fam} {op['field']} {','.join(stale[0]['fields'][:3])}",
+                          f"{schema}: after set_{op['field']} through the {'second' if op.get('lib') else 'first'} of two database objects opened "
+                          f"on one directory, a track handle held since before answers differently from a fresh one: {stale[:2]}", wit)
+            return
+        if ta != tb:
+            where = diff_paths(ta, tb)
+            ctx.violation(f"database-objects-disagree {fam} {op['field']} {generic_site(where[0]) if where else ''}",
+                          f"{schema}: after set_{op['field']} through the {'second' if op.get('lib') else 'first'} of two database objects "
+                          f"opened on one directory, the two disagree at {where[:3]}", wit)
+            return
+
+
 def judge_case(ctx, res):
+    if res.case.get("_shared") is not None:
+        return judge_shared(ctx, res)
     case = res.case
     schema = case["schema"]
     fam = family(schema)
@@ -189,6 +263,11 @@ def judge_case(ctx, res):
             ctx.fail_harness("observe_all failed: %s" % ev["exc"]["type"])
             return
         obs = ev["ret"]
+        ctx.bump("held_handle_comparisons", obs.get("held_handles_compared", 0))
+        if obs.get("held_handles_disagree"):
+            ctx.violation(f"held-handle-stale {fam} {','.join(obs['held_handles_disagree'][0]['fields'][:3])}",
+                          f"{schema}: a track handle held since earlier answers differently from one obtained now: {obs['held_handles_disagree'][:2]}", wit)
+            return
         tracks = obs.get("tracks") or {}
         for h, x in (obs.get("track_handles") or {}).items():
             handles[h] = str(x["id"])
@@ -317,6 +396,10 @@ def run(ctx):
             cases.append(make_case("c%d" % n, ctx.rng, schema, nt, 36))
             ctx.bump_in("tracks_per_history", str(nt))
             n += 1
+    for schema in ALL_SCHEMAS:
+        for k in range(2 if ctx.tier == "quick" else 40):
+            cases.append(make_shared_case("sh%d" % n, ctx.rng, schema, 2 + k % 2, 14))
+            n += 1
     c0 = cases[0]
     ctx.sample({"schema": c0["schema"], "setter_sequence": [(m["field"], str(m.get("value"))[:40]) for m in c0["_metas"] if m and m["kind"] != "create"][:12]})
     ctx.assumptions += [
@@ -352,6 +435,20 @@ def replay(ctx, doc):
                           "value": op["value"], "excusable": False})
         else:
             metas.append(None)
+    if any(o["op"] == "load" and o.get("lib") for o in ops):
+        full = []
+        steps = []
+        seen_load = False
+        for o in ops:
+            if o["op"] == "set" and seen_load:
+                steps.append(len(full))
+                full += [o, dict(OBS), dict(OBS_B)]
+            else:
+                full.append(o)
+            if o["op"] == "load":
+                seen_load = True
+        judge_shared(ctx, runner.run_one({"id": "replay", "schema": r["schema"], "ops": full, "_shared": steps}, cfg="plain"))
+        return
     twin = any(o.get("lib") for o in ops)
     full, index = interleave(ops, twin)
     case = {"id": "replay", "schema": r["schema"], "ops": full, "_metas": metas, "_index": index, "_twin": twin}
